@@ -165,6 +165,12 @@ class P(Prop):
                 out.append(dict(op="arb_vec_f64", bytes=bs, meta={"class": "vec/" + style}))
             else:
                 xs = [C.bits(rng.uniform(-6, 6)) for _ in range(6)] + [C.bits(float("inf")), C.NAN_BITS]
+                dec_ends, _ = py_decode(bs, npiece)
+                good = [e for e in dec_ends if is_normal(e)]
+                if good and rng.random() < 0.7:
+                    # queries on the breakpoints themselves; the very first query of the fresh evaluator is the smallest one
+                    srt = sorted(good, key=lambda b: C.fl(b))
+                    xs = [srt[0]] + [rng.choice(srt + [C.next_up(e) for e in srt] + [C.next_down(e) for e in srt]) for _ in range(5)] + xs[:4]
                 out.append(dict(op="arb_eval", ty=ty, bytes=bs, xs=xs, meta={"class": "eval/" + style}))
         # nested functions: the piece decoder of the outer function is fallible
         for i in range(max(40, n // 4)):
